@@ -359,6 +359,32 @@ def run_exp(sh, ctx):
 						ctx.violation('archive-not-equal', f'archive read back differs: {diff or "== is False although the explicit walk found no difference"}', ww)
 					else:
 						ctx.count('archive_ok')
+			if two_sets:
+				# the same file holds a second genome set annotating the same genomes: results against BOTH sets are archived and read
+				# back through ONE reader, in both orders (a reader serves many archives in a long-lived process)
+				gset2 = session.query(ReferenceGenomeSet).filter_by(key='verif/other-set').one()
+				db2 = ReferenceDatabase(gset2, db.signatures)
+				results2 = query(db2, qs, QueryParams(report_closest=3), inputs=[q['label'] for q in w.queries])
+				texts = []
+				for res_ in (results, results2):
+					buf = io.StringIO(newline='')
+					ResultsArchiveWriter().export(buf, res_)
+					texts.append(buf.getvalue())
+				for order in ((0, 1), (1, 0), (0, 1, 0)):
+					reader = ResultsArchiveReader(session)
+					for which in order:
+						ctx.evals += 1
+						try:
+							back = reader.read(io.StringIO(texts[which]))
+						except Exception as e:
+							ctx.violation('archive-read-raises', f'reading archive {which} with a reader that already read another archive raised {type(e).__name__}: {e}', dict(desc, order=list(order)))
+							break
+						orig = (results, results2)[which]
+						diff = walk_equal(orig, back)
+						if diff or not (back == orig):
+							ctx.violation('archive-not-equal', f'one reader, archives of two genome sets read in order {list(order)}: archive {which} differs: {diff or "== is False"}', dict(desc, order=list(order), fmt='archive'))
+							break
+				ctx.count('two_genome_set_archives_through_one_reader')
 		finally:
 			db.signatures.close(); db.session.close()
 
@@ -415,6 +441,8 @@ def run_shard(sh, ctx):
 
 def finalize(merged, tier, seed, inconclusive):
 	c = merged['counters']
+	if c.get('two_genome_set_archives_through_one_reader', 0) == 0:
+		inconclusive.append('class never observed: two_genome_set_archives_through_one_reader')
 	if c.get('results_with_edge_distances', 0) == 0:
 		inconclusive.append('class never observed: results_with_edge_distances')
 	need = ['format:csv', 'format:json', 'format:archive', 'csv_ok', 'json_ok', 'archive_ok', 'feature:no-prediction', 'feature:unreportable-predicted-taxon', 'feature:failed-strict-result',
